@@ -3,9 +3,12 @@ use serde_json::Value;
 
 pub mod gens;
 pub mod world;
+pub mod enginekit;
 pub mod c01;
 pub mod c02;
 pub mod c05;
+pub mod c11;
+pub mod c14;
 pub mod c17;
 pub mod c18;
 
@@ -19,6 +22,8 @@ pub const ALL: &[Property] = &[
     Property { id: "C01", run: c01::run, replay: c01::replay },
     Property { id: "C02", run: c02::run, replay: c02::replay },
     Property { id: "C05", run: c05::run, replay: c05::replay },
+    Property { id: "C11", run: c11::run, replay: c11::replay },
+    Property { id: "C14", run: c14::run, replay: c14::replay },
     Property { id: "C17", run: c17::run, replay: c17::replay },
     Property { id: "C18", run: c18::run, replay: c18::replay },
 ];
